@@ -43,6 +43,39 @@ SQRT = uf("sqrt", R, R)
 INNER = uf("inner", A, I, I, A, I, I, I, R)  # (content_a, off_a, step_a, content_b, off_b, step_b, n)
 
 
+EXP2 = uf("exp2", R, R)
+LOG2 = uf("log2", R, R)
+
+
+def math_axioms():
+    """A-MATH: the facts about exp/ln (and 2**x / log2) the proofs use: mutually inverse, strictly increasing,
+    exp positive. Quantified with single-term triggers."""
+    x, y = z3.Reals("mx my")
+    out = []
+    for E, Lg in ((EXP, LN), (EXP2, LOG2)):
+        out += [
+            z3.ForAll([x], Lg(E(x)) == x, patterns=[E(x)]),
+            z3.ForAll([x], z3.Implies(x > 0, E(Lg(x)) == x), patterns=[Lg(x)]),
+            z3.ForAll([x], E(x) > 0, patterns=[E(x)]),
+            z3.ForAll([x, y], z3.Implies(x < y, E(x) < E(y)), patterns=[z3.MultiPattern(E(x), E(y))]),
+            z3.ForAll([x, y], z3.Implies(z3.And(0 < x, x < y), Lg(x) < Lg(y)), patterns=[z3.MultiPattern(Lg(x), Lg(y))]),
+        ]
+    return out
+
+
+@lib("pow2")
+def _pow2(ex, st, args, kwargs, node, ev):
+    ex.assumption_ids.add("A-MATH")
+    return EXP2(to_real(args[0]))
+
+
+@lib("np.log2")
+def _np_log2(ex, st, args, kwargs, node, ev):
+    ex.assumption_ids.add("A-MATH")
+    ev.wd(to_real(args[0]) > 0, "log_domain", node)
+    return LOG2(to_real(args[0]))
+
+
 def arr_args(st, a):
     return (st.heap[a.root].content, Z(a.off), z3.IntVal(a.step))
 
@@ -51,6 +84,8 @@ def arr_args(st, a):
 def _np_log(ex, st, args, kwargs, node, ev):
     (a,) = args
     ex.assumption_ids.add("A-MATH")
+    if getattr(ex.contract, "log_domain_wd", False):
+        ev.wd(to_real(a) > 0, "log_domain", node)
     return LN(to_real(a))
 
 
